@@ -74,6 +74,8 @@ package gcs
 //@   assert after fastReduction#1: $arg0 == $ret_Sum64#1 && $arg1 == f.modulusNP >> 32 && $arg2 == u64(u32(f.modulusNP))
 //@   assert after readFullUint64#1: $arg0 == f && $arg1 == b
 //@   alloc len(f.filterData) + len(data) + 64
+//@   localtype values: []uint64
+//@   assert after append#1: len($ret) >= 1 && $ret[len($ret) - 1] == $ret_fastReduction#1
 //@   loop 1 invariant len(values) == $i && cap(values) == len(data) && fresh(values)
 //@   loop 2 invariant i <= f.n && 0 <= queryIndex && queryIndex <= querySize && querySize == len(values) && b != nil && fresh(b) && *b >= 0 && *b <= 8 * len(f.filterData)
 //@   loop 2 decreases *b
@@ -92,6 +94,7 @@ package gcs
 //@   assert after readFullUint64#1: $arg0 == f && $arg1 == b
 //@   alloc 8 * len(f.filterData) + len(data) + 64
 //@   loop 1 invariant b != nil && fresh(b) && *b >= 0 && values != nil && *b <= 8 * len(f.filterData)
+//@   loop 1 invariant $calls_mapupdate == $calls_readFullUint64
 //@   loop 1 decreases *b
 
 //@ func gcs.(*Filter).MatchAny
